@@ -266,7 +266,13 @@ pub fn build_package(opts: PackageInputs) -> Result<CoreUnit, CompilationError> 
 pub fn read_core(path: &Path) -> Result<CoreUnit, CompilationError> {
     let json = fs::read_to_string(path)
         .map_err(|err| compile_error(format!("failed to read {}: {}", path.display(), err)))?;
-    let unit: CoreUnit = serde_json::from_str(&json)
+    // Core expressions nest as deeply as the source does (every `let` in a row is one level), and
+    // `build` writes them without a depth limit; reading them back must not have one either, or a
+    // function of 60 sequential lets builds but cannot be linked.
+    let mut deserializer = serde_json::Deserializer::from_str(&json);
+    deserializer.disable_recursion_limit();
+    let unit: CoreUnit = serde::Deserialize::deserialize(&mut deserializer)
+        .and_then(|unit| deserializer.end().map(|()| unit))
         .map_err(|err| compile_error(format!("failed to parse {}: {}", path.display(), err)))?;
     if !unit.validate() {
         return Err(compile_error(format!(
